@@ -12,8 +12,9 @@ import subprocess
 import time
 
 VERIF = os.path.dirname(os.path.dirname(os.path.abspath(__file__)))
-SRC = os.path.join(VERIF, 'build', 'bx-src')
-TARGET = os.path.join(VERIF, 'build', 'bx-target')
+BUILD = os.environ.get('VERIF_BUILD') or os.path.join(VERIF, 'build')   # VERIF_BUILD: a private scratch tree for parallel development runs (vx/preseed.py)
+SRC = os.path.join(BUILD, 'bx-src')
+TARGET = os.path.join(BUILD, 'bx-target')
 
 # unit -> (harness file, BX_TARGETS value)
 UNIT_HARNESS = {
@@ -79,8 +80,8 @@ def run(units, repo='/repo', depth=None, n=None, seed=None, timeout=600):
     if not harnesses:
         res.status, res.reason = 'undecided', 'no bounded harness for %s' % units
         return res
-    os.makedirs(os.path.join(VERIF, 'build'), exist_ok=True)
-    with open(os.path.join(VERIF, 'build', 'bx.lock'), 'w') as lk:
+    os.makedirs(BUILD, exist_ok=True)
+    with open(os.path.join(BUILD, 'bx.lock'), 'w') as lk:
         fcntl.flock(lk, fcntl.LOCK_EX)
         import synctree
         synctree.sync(repo, SRC)
